@@ -56,7 +56,7 @@ func ruleC14(c *Ctx) {
 	c.floor("FIELDMAP", 12)
 	c.floor("MAPORDER", 1)
 	c.floor("PREFIX", 2)
-	c.floor("TERM", 1)
+	c.floor("TERM", 2)
 	c.floor("WRAPPERS", 2)
 	w := c.W
 	parse, build := w.fn("io/gff", "Parse"), w.fn("io/gff", "Build")
@@ -66,21 +66,62 @@ func ruleC14(c *Ctx) {
 	}
 	c.useFn(parse)
 	c.useFn(build)
-	ptb, btb := newTB(parse), newTB(build)
+	checkGffReader(c, parse)
+	checkGffWriter(c, build)
+	// MAPORDER over Build and what it calls
+	var fs []*ssa.Function
+	for _, f := range funcsSorted(reachable(build)) {
+		if inModule(f) {
+			fs = append(fs, f)
+		}
+	}
+	checkMapOrder(c, "MAPORDER", fs)
 
-	// ---------------- reader side
+	// WRAPPERS
+	checkReturnIs(c, "WRAPPERS", "Read", w.fn("io/gff", "Read"), 0, "call[poly/io/gff.Parse](extract[0](call[os.ReadFile](param[0])))", "Read(path) = Parse(ReadFile(path))")
+	checkFileWrite(c, "WRAPPERS", "Write", w.fn("io/gff", "Write"), 1, "call[poly/io/gff.Build](param[0])")
+}
+
+// judgeLeaves: every alternative of got must be want. An alternative that is a local variation of want
+// (built from the same vocabulary) is a violation; anything else is undecided.
+func judgeLeaves(got *Term, want string, extra ...string) (int, string) {
+	if got == nil {
+		return unknown, "not found"
+	}
+	st, why := holds, ""
+	for _, l := range phiLeaves(got) {
+		if l.String() == want {
+			continue
+		}
+		s2 := unknown
+		if len(opaqueParts(l, vocabOf(append(extra, want)...))) == 0 && localDiff(l, want) {
+			s2 = broken
+		}
+		if st == holds || s2 == broken {
+			st, why = s2, "holds "+short(l.String())+"; want "+short(want)
+		}
+	}
+	return st, why
+}
+
+func checkGffReader(c *Ctx, parse *ssa.Function) {
+	view := newFamView(parse)
+	for _, g := range view.fns {
+		c.useFn(g)
+	}
+	ptb := view.tb[parse]
 	lines := `call[strings.Split](conv[string](param[0]), const["\n"])`
 	line := "each(" + lines + ")"
 	fields := `call[strings.Split](` + line + `, const["\t"])`
 	fld := func(k int) string { return fmt.Sprintf("index(%s, const[%d])", fields, k) }
 	af, n := findCall(parse, "(*poly.Sequence).AddFeature")
 	if n != 1 {
-		c.bad("FIELDMAP", "Parse:AddFeature", parse.Pos(), fmt.Sprintf("%d AddFeature calls in gff.Parse, want 1 (every feature line is added through the canonical method)", n))
+		c.undecided("FIELDMAP", "Parse:AddFeature", parse.Pos(), fmt.Sprintf("%d AddFeature calls in gff.Parse, the model needs 1", n))
 		return
 	}
 	rec, ok := unwrap(af.Common().Args[1]).(*ssa.Alloc)
 	if !ok {
-		c.bad("FIELDMAP", "Parse:AddFeature", af.Pos(), "the feature handed to AddFeature is not a local record (unrecognised shape)")
+		c.undecided("FIELDMAP", "Parse:AddFeature", af.Pos(), "the feature handed to AddFeature is not a local record")
 		return
 	}
 	type col struct {
@@ -99,199 +140,419 @@ func ruleC14(c *Ctx) {
 		{"col7 strand->Strand", []string{".Strand"}, fld(6), "FIELDMAP"},
 		{"col8 phase->Phase", []string{".Phase"}, fld(7), "FIELDMAP"},
 	}
-	for _, cl := range cols {
-		got := ptb.at(rec, cl.path, af).String()
-		c.check(got == cl.want, cl.rule, "Parse:"+cl.name, af.Pos(), "at AddFeature the field holds exactly "+short(cl.want), "at AddFeature the field holds "+short(got)+"; want "+short(cl.want))
+	var extra []string
+	for k := 0; k < 9; k++ {
+		extra = append(extra, fld(k))
+	}
+	extra = append(extra, "binop[-](a, const[1])", "binop[+](a, const[1])", "extract[0](call[strconv.Atoi](a))")
+	for k, cl := range cols {
+		got := ptb.at(rec, cl.path, af)
+		st, why := judgeLeaves(got, cl.want, extra...)
+		if st == unknown {
+			// an alternative that does not come from this column at all: the column's value is overridden on some path
+			own := fld(k)
+			for _, l := range phiLeaves(got) {
+				if !strings.Contains(l.String(), own) && l.Op != "zero" && len(opaqueParts(l, vocabOf(append(extra, cl.want)...))) == 0 {
+					st, why = broken, "may hold "+short(l.String())+", which does not come from column "+fmt.Sprint(k+1)+" of the line (clamped or overridden); want "+short(cl.want)
+				}
+			}
+		}
+		c.judge(st, cl.rule, "Parse:"+cl.name, af.Pos(), "at AddFeature the field holds exactly "+short(cl.want), "at AddFeature the field "+why)
 	}
 	// attributes
-	attrSplit := `call[strings.Split](each(call[strings.Split](` + fld(8) + `, const[";"])), const["="])`
-	nUpd, okUpd := 0, false
-	eachInstr(parse, func(i ssa.Instruction) {
-		if mu, ok := i.(*ssa.MapUpdate); ok {
-			nUpd++
-			k, v := ptb.T(mu.Key).String(), ptb.T(mu.Value).String()
-			if k == "index("+attrSplit+", const[0])" && v == "index("+attrSplit+", const[1])" {
-				// the map updated is the record's Attributes
-				m := ptb.T(mu.Map)
-				if m.contains(func(x *Term) bool { return x.Op == "makemap" }) {
-					okUpd = true
-				}
+	stA, whyA := unknown, "no store into the record's attribute map found"
+	nUpd := 0
+	view.each(func(g *ssa.Function, i ssa.Instruction) {
+		mu, ok := i.(*ssa.MapUpdate)
+		if !ok {
+			return
+		}
+		nUpd++
+		k, v := view.T(g, mu.Key), view.T(g, mu.Value)
+		// key = split(pair, "=")[0], value = split(pair, "=")[1], pair = each(split(fields[8], ";"))
+		kvOf := func(t *Term, idx string) (pairSep, listSep string, src *Term, ok bool) {
+			if t.Op != "index" || !t.Args[1].isConst(idx) {
+				return
+			}
+			sp := t.Args[0]
+			if !(sp.isCall("strings.Split") || sp.isCall("strings.SplitN")) {
+				return
+			}
+			ps, ok1 := sp.Args[1].constStr()
+			pair := sp.Args[0]
+			if pair.Op != "each" || !(pair.Args[0].isCall("strings.Split")) {
+				return
+			}
+			ls, ok2 := pair.Args[0].Args[1].constStr()
+			return ps, ls, pair.Args[0].Args[0], ok1 && ok2
+		}
+		ps1, ls1, src1, ok1 := kvOf(k, "0")
+		ps2, ls2, src2, ok2 := kvOf(v, "1")
+		switch {
+		case !ok1 || !ok2:
+			if stA != broken {
+				whyA = "attribute store " + short(k.String()) + " -> " + short(v.String())
+			}
+		case ps1 != "=" || ps2 != "=" || ls1 != ";" || ls2 != ";":
+			stA, whyA = broken, fmt.Sprintf("attributes are split on %q then %q; the writer joins with \";\" and \"=\"", ls1, ps1)
+		case src1.String() != fld(8) || src2.String() != fld(8):
+			stA, whyA = stateOf(false, vocabOf(extra...), src1, src2), "attributes are read from "+short(src1.String())+"; want column 9"
+		default:
+			if stA != broken {
+				stA = holds
 			}
 		}
 	})
-	c.check(nUpd == 1 && okUpd, "FIELDMAP", "Parse:col9 attributes k=v;k=v", af.Pos(), "Attributes[k]=v for each ';'-separated 'k=v' of fields[8]", fmt.Sprintf("attributes are not decoded as split(fields[8], \";\") then split(_, \"=\")[0]->[1] (map updates=%d)", nUpd))
-	// the loop reaches AddFeature exactly for non-empty, non-'##', non-FASTA lines
-	pc := pathCond(ptb, parse.Blocks[0], af.Block()).String()
-	c.Sites++
-	wantParts := []string{`!(binop[==](const["##FASTA"], ` + line + `))`, `!(binop[==](call[builtin:len](` + line + `), const[0]))`}
-	okPC := true
-	for _, p := range wantParts {
-		if !strings.Contains(pc, p) {
-			okPC = false
+	if stA == holds && nUpd != 1 {
+		stA, whyA = unknown, fmt.Sprintf("%d map updates in the reader", nUpd)
+	}
+	c.judge(stA, "FIELDMAP", "Parse:col9 attributes k=v;k=v", af.Pos(), "Attributes[k]=v for each ';'-separated 'k=v' of fields[8]", whyA)
+	// which lines are feature lines / sequence lines
+	classes := []lineClass{{"blank", ""}, {"##FASTA", "##FASTA"}, {"directive", "##gff-version 3"}, {"directive", "###"}, {"fasta header", ">seq1"}, {"data", "chr1\tsrc\tgene\t1\t9\t.\t+\t.\tID=a"}, {"data", "ACGTACGTAC"}, {"data", "A"}}
+	pcF := view.cond(parse, af.Block())
+	stF, whyF := holds, ""
+	for _, cl := range classes {
+		v, known := classEval(pcF, line, cl)
+		switch {
+		case cl.Name == "data" && known && !v:
+			stF, whyF = broken, "ordinary lines are never parsed as features ("+classTable(pcF, line, classes)+")"
+		case (cl.Name == "blank" || cl.Name == "##FASTA" || cl.Name == "directive") && known && v:
+			stF, whyF = broken, "a "+cl.Name+" line is parsed as a feature ("+classTable(pcF, line, classes)+")"
+		case (cl.Name == "blank" || cl.Name == "##FASTA" || cl.Name == "directive") && !known && stF == holds:
+			stF, whyF = unknown, "whether a "+cl.Name+" line is parsed as a feature depends on "+short(pcF.String())
 		}
 	}
-	c.check(okPC, "FIELDMAP", "Parse:feature lines", af.Pos(), "a feature is parsed from every line that is not blank, not '##…' and not in the FASTA section", "feature lines are selected under "+short(pc))
+	c.judge(stF, "FIELDMAP", "Parse:feature lines", af.Pos(), "a feature is parsed from every line that is not blank, not '##…' and not in the FASTA section", whyF)
 	// header
-	meta := func(path ...string) string {
-		// Meta is assembled in a local and stored into sequence.Meta before return
-		var metaAlloc *ssa.Alloc
-		eachInstr(parse, func(i ssa.Instruction) {
-			if a, ok := i.(*ssa.Alloc); ok && tname(deref(a.Type())) == "poly.Meta" {
-				metaAlloc = a
-			}
-		})
-		if metaAlloc == nil {
-			return "<no Meta local>"
+	var metaAlloc *ssa.Alloc
+	eachInstr(parse, func(i ssa.Instruction) {
+		if a, ok := i.(*ssa.Alloc); ok && tname(deref(a.Type())) == "poly.Meta" {
+			metaAlloc = a
 		}
-		rets := returnsOf(parse)
-		return ptb.at(metaAlloc, path, rets[0]).String()
-	}
+	})
 	hdr := func(ln, k int) string {
 		return fmt.Sprintf(`index(call[strings.Split](index(slice(%s, const[0], const[2]), const[%d]), const[" "]), const[%d])`, lines, ln, k)
 	}
+	hdrB := func(ln, k int) string {
+		return fmt.Sprintf(`index(call[strings.Split](index(%s, const[%d]), const[" "]), const[%d])`, lines, ln, k)
+	}
+	rets := returnsOf(parse)
 	for _, h := range []struct {
 		name string
 		path string
-		want string
+		ln   int
+		k    int
+		atoi bool
 	}{
-		{"##gff-version v -> GffVersion", ".GffVersion", hdr(0, 1)},
-		{"##sequence-region name -> Name", ".Name", hdr(1, 1)},
-		{"##sequence-region start -> RegionStart", ".RegionStart", "extract[0](call[strconv.Atoi](" + hdr(1, 2) + "))"},
-		{"##sequence-region end -> RegionEnd", ".RegionEnd", "extract[0](call[strconv.Atoi](" + hdr(1, 3) + "))"},
+		{"##gff-version v -> GffVersion", ".GffVersion", 0, 1, false},
+		{"##sequence-region name -> Name", ".Name", 1, 1, false},
+		{"##sequence-region start -> RegionStart", ".RegionStart", 1, 2, true},
+		{"##sequence-region end -> RegionEnd", ".RegionEnd", 1, 3, true},
 	} {
-		got := meta(h.path)
-		c.check(got == h.want, "FIELDMAP", "Parse:"+h.name, parse.Pos(), "read from the space-split header line at that index", "holds "+short(got)+"; want "+short(h.want))
-	}
-	// the returned sequence carries that Meta and the FASTA text
-	rt, _, okRet := singleReturnTerm(parse, 0)
-	seqOK := false
-	if okRet {
-		var sq *Term
-		for _, a := range rt.Args {
-			if a.Op == "partial" && a.Name == ".Sequence" {
-				sq = a.Args[0]
+		if metaAlloc == nil || len(rets) == 0 {
+			c.undecided("FIELDMAP", "Parse:"+h.name, parse.Pos(), "no local Meta record found")
+			continue
+		}
+		got := ptb.at(metaAlloc, []string{h.path}, rets[0])
+		want, wantB := hdr(h.ln, h.k), hdrB(h.ln, h.k)
+		if h.atoi {
+			want, wantB = "extract[0](call[strconv.Atoi]("+want+"))", "extract[0](call[strconv.Atoi]("+wantB+"))"
+		}
+		st, why := judgeLeaves(got, want, extra...)
+		if st != holds {
+			if st2, _ := judgeLeaves(got, wantB, extra...); st2 == holds {
+				st = holds
 			}
 		}
-		if sq != nil && sq.isCall("(*bytes.Buffer).String") {
-			ws := bufWrites(parse, ptb, sq.Args[0].String())
-			if len(ws) == 1 && ws[0].arg.String() == line {
-				wpc := pathCond(ptb, parse.Blocks[0], ws[0].call.Block()).String()
-				gt := `binop[!=](const[">"], slice(` + line + `, const[0], const[1]))`
-				skipsDirectives := strings.Contains(wpc, `!(binop[==](const["##"], slice(`+line+`, const[0], const[2])))`) || strings.Contains(wpc, `!(call[strings.HasPrefix](`+line+`, const["##"]))`)
-				seqOK = strings.Contains(wpc, gt) && !strings.Contains(wpc, "!("+gt+")") && skipsDirectives
-			}
-		}
+		c.judge(st, "FIELDMAP", "Parse:"+h.name, parse.Pos(), "read from the space-split header line at that index", why)
 	}
-	c.check(seqOK, "TERM", "Parse:sequence=concat(FASTA lines)", parse.Pos(), "every non-blank, non-'##', non-'>' line after ##FASTA is appended unmodified", "the embedded sequence is not the plain concatenation of the FASTA section's sequence lines (unrecognised shape)")
-	checkPrefix(c, "PREFIX", parse)
-
-	// ---------------- writer side
-	rtb, _, okB := singleReturnTerm(build, 0)
-	if !okB || !rtb.isCall("(*bytes.Buffer).Bytes") {
-		c.bad("FIELDMAP", "Build:buffer", build.Pos(), "Build does not return the bytes of one buffer (unrecognised shape)")
-		return
+	// the returned sequence carries the FASTA text
+	stS, whyS := unknown, "the returned Sequence is not visibly the content of one buffer"
+	var sq *Term
+	for _, a := range resultAlts(ptb, parse, 0) {
+		sq = partialOf(a.T, "Sequence")
 	}
-	buf := rtb.Args[0].String()
-	ws := bufWrites(build, btb, buf)
-	feat := "each(field[Features](param[0]))"
-	var featLine []*Term
-	var versionOK, regionOK, fastaOK, nameLineOK bool
-	var region []*Term
-	for _, wr := range ws {
-		parts := wr.arg.sumTerms()
-		s := wr.arg.String()
+	if sq != nil && (sq.isCall("(*bytes.Buffer).String") || sq.isCall("(*strings.Builder).String")) {
+		ws := bufWrites(parse, ptb, sq.Args[0].String())
 		switch {
-		case len(parts) == 18:
-			featLine = parts
-		case strings.Contains(s, `const["##gff-version "]`):
-			for _, l := range phiLeaves(wr.arg) {
-				p := l.sumTerms()
-				if len(p) == 3 && p[0].isConst(`"##gff-version "`) && p[1].String() == "field[GffVersion](field[Meta](param[0]))" && p[2].isConst(`"\n"`) {
-					versionOK = true
+		case len(ws) != 1:
+			whyS = fmt.Sprintf("%d writes into the sequence buffer, the model needs 1", len(ws))
+		case ws[0].arg.String() != line:
+			stS = stateOf(false, vocabOf(line), ws[0].arg)
+			if stS == broken && !localDiff(ws[0].arg, line) {
+				stS = unknown
+			}
+			whyS = "the text appended to the sequence is " + short(ws[0].arg.String()) + ", want the raw line"
+		default:
+			stS = holds
+			wpc := view.cond(parse, ws[0].call.Block())
+			for _, cl := range classes {
+				v, known := classEval(wpc, line, cl)
+				bad := cl.Name == "blank" || cl.Name == "##FASTA" || cl.Name == "directive" || cl.Name == "fasta header"
+				switch {
+				case bad && known && v:
+					stS, whyS = broken, "a "+cl.Name+" line is appended to the sequence ("+classTable(wpc, line, classes)+")"
+				case cl.Name == "data" && known && !v:
+					stS, whyS = broken, "sequence lines are never appended ("+classTable(wpc, line, classes)+")"
+				case bad && !known && stS == holds:
+					// open only because of the in-FASTA flag? then the line tests alone must exclude it
+					v2, k2 := evalCond3(wpc, func(t *Term) (bool, bool) {
+						if vv, kk := atomOnSample(t, line, cl.Sample); kk {
+							return vv, true
+						}
+						return true, true // flags and loop conditions set as favourably as possible
+					})
+					if k2 && v2 {
+						stS, whyS = broken, "inside the FASTA section a "+cl.Name+" line is appended to the sequence ("+classTable(wpc, line, classes)+")"
+					}
 				}
 			}
-		case strings.Contains(s, `const["##sequence-region "]`):
-			region = parts
-		case wr.arg.isConst(`"##FASTA\n"`):
+		}
+	}
+	c.judge(stS, "TERM", "Parse:sequence=concat(FASTA lines)", parse.Pos(), "every non-blank, non-'##', non-'>' line after ##FASTA is appended unmodified", whyS)
+	checkPrefix(c, "PREFIX", parse)
+}
+
+func checkGffWriter(c *Ctx, build *ssa.Function) {
+	btb := newDeepTB(build)
+	var rt *Term
+	for _, a := range resultAlts(btb, build, 0) {
+		rt = a.T
+	}
+	if rt == nil {
+		c.undecided("FIELDMAP", "Build:buffer", build.Pos(), "no result")
+		return
+	}
+	ems, why := sinkEmissions(btb, build, rt)
+	if why != "" {
+		c.undecided("FIELDMAP", "Build:buffer", build.Pos(), why)
+		return
+	}
+	feat := "each(field[Features](param[0]))"
+	meta := func(f string) string { return "field[" + f + "](field[Meta](param[0]))" }
+	var featLine []*Term
+	var featAt ssa.Instruction
+	stV, whyV := unknown, "no write of \"##gff-version \" + version found"
+	stR, whyR := unknown, "no write of the ##sequence-region line found"
+	var fastaOK, nameLineOK bool
+	hasConst := func(ps []*Term, pre string) bool {
+		for _, p := range ps {
+			if s, ok := p.constStr(); ok && strings.HasPrefix(s, pre) {
+				return true
+			}
+		}
+		return false
+	}
+	// a write whose argument is one of several alternatives (a variable assigned in branches) counts once per alternative
+	var flat []emission
+	for _, e := range ems {
+		if len(e.Pieces) == 1 && e.Pieces[0].Op == "phi" && !e.Pieces[0].Cyc {
+			for _, l := range phiLeaves(e.Pieces[0]) {
+				ps, _ := btb.pieces(l)
+				flat = append(flat, emission{e.At, ps})
+			}
+			continue
+		}
+		flat = append(flat, e)
+	}
+	for _, e := range flat {
+		ps := e.Pieces
+		nTab := 0
+		for _, p := range ps {
+			if p.isConst(`"\t"`) {
+				nTab++
+			}
+		}
+		switch {
+		case nTab >= 8:
+			featLine, featAt = ps, e.At
+		case hasConst(ps, "##gff-version "):
+			np := normPieces(ps)
+			if len(np) == 1 {
+				continue // the constant default line
+			}
+			stV, whyV = comparePieces(np, []string{`const["##gff-version "]`, meta("GffVersion"), `const["\n"]`})
+		case hasConst(ps, "##sequence-region"):
+			// "##sequence-region " name " " start " " end "\n"
+			if len(ps) == 8 && ps[0].isConst(`"##sequence-region"`) && ps[1].isConst(`" "`) {
+				ps = append([]*Term{{Op: "const", Name: `"##sequence-region "`}}, ps[2:]...)
+			}
+			if len(ps) != 7 {
+				whyR = fmt.Sprintf("the region line is assembled from %d pieces", len(ps))
+				continue
+			}
+			wants := []string{meta("Name"), "call[strconv.Itoa](" + meta("RegionStart") + ")", "call[strconv.Itoa](" + meta("RegionEnd") + ")"}
+			stR = holds
+			if !(ps[0].isConst(`"##sequence-region "`) && ps[2].isConst(`" "`) && ps[4].isConst(`" "`) && ps[6].isConst(`"\n"`)) {
+				stR, whyR = broken, "the region line's separators are "+short(piecesString(ps))+"; the reader splits on single spaces"
+				for _, k := range []int{0, 2, 4, 6} {
+					if ps[k].Op != "const" {
+						stR = unknown
+					}
+				}
+			}
+			for k, slot := range []int{1, 3, 5} {
+				own := false
+				other := -1
+				for _, l := range phiLeaves(ps[slot]) {
+					if l.String() == wants[k] {
+						own = true
+					}
+					for k2 := range wants {
+						if k2 != k && l.String() == wants[k2] {
+							other = k2
+						}
+					}
+				}
+				switch {
+				case own:
+				case other >= 0:
+					stR, whyR = broken, fmt.Sprintf("slot %d of the region line holds %s; the reader expects name, start, end in that order", k+1, wants[other])
+				case stR == holds:
+					stR, whyR = unknown, fmt.Sprintf("slot %d of the region line is %s", k+1, short(ps[slot].String()))
+				}
+			}
+		case len(ps) == 1 && ps[0].isConst(`"##FASTA\n"`):
 			fastaOK = true
-		case len(parts) == 3 && parts[0].isConst(`">"`) && parts[2].isConst(`"\n"`):
+		case len(ps) == 3 && ps[0].isConst(`">"`) && ps[2].isConst(`"\n"`):
 			nameLineOK = true
 		}
 	}
-	c.check(versionOK, "FIELDMAP", "Build:##gff-version", build.Pos(), "\"##gff-version \"+GffVersion+\"\\n\": the reader's split(\" \")[1]", "version header is not \"##gff-version \"+Meta.GffVersion+\"\\n\"")
-	if len(region) == 7 {
-		leafHas := func(t *Term, want string) bool {
-			for _, l := range phiLeaves(t) {
-				if l.String() == want {
-					return true
-				}
-			}
-			return false
+	c.judge(stV, "FIELDMAP", "Build:##gff-version", build.Pos(), "\"##gff-version \"+GffVersion+\"\\n\": the reader's split(\" \")[1]", whyV)
+	c.judge(stR, "FIELDMAP", "Build:##sequence-region", build.Pos(), "\"##sequence-region \"+name+\" \"+start+\" \"+end+\"\\n\" in the reader's index order", whyR)
+	// the sequence body: every letter of Sequence, once, in order
+	{
+		src := "field[Sequence](param[0])"
+		st, why, at := unknown, "", ssa.Instruction(nil)
+		if rt.isCall("(*bytes.Buffer).Bytes") || rt.isCall("(*bytes.Buffer).String") || rt.isCall("(*strings.Builder).String") {
+			st, why, at = perLetterOnce(btb, build, src, rt.Args[0].String())
 		}
-		regionOK = region[0].isConst(`"##sequence-region "`) && leafHas(region[1], "field[Name](field[Meta](param[0]))") && region[2].isConst(`" "`) &&
-			leafHas(region[3], "call[strconv.Itoa](field[RegionStart](field[Meta](param[0])))") && region[4].isConst(`" "`) &&
-			leafHas(region[5], "call[strconv.Itoa](field[RegionEnd](field[Meta](param[0])))") && region[6].isConst(`"\n"`)
-	}
-	c.check(regionOK, "FIELDMAP", "Build:##sequence-region", build.Pos(), "\"##sequence-region \"+name+\" \"+start+\" \"+end+\"\\n\" in the reader's index order", "region header does not write Meta.Name, RegionStart, RegionEnd separated by single spaces in that order")
-	c.check(fastaOK && nameLineOK, "FIELDMAP", "Build:##FASTA section", build.Pos(), "\"##FASTA\\n\" then a '>' name line", "the FASTA section marker/name line differs from what the reader tests for")
-	if featLine == nil {
-		c.bad("FIELDMAP", "Build:feature line", build.Pos(), "no 9-column tab-separated feature line write found (unrecognised shape)")
-	} else {
-		wantCols := []struct{ name, want, rule string }{
-			{"col1", "field[Name](" + feat + ")", "FIELDMAP"},
-			{"col2", "field[Source](" + feat + ")", "FIELDMAP"},
-			{"col3", "field[Type](" + feat + ")", "FIELDMAP"},
-			{"col4=Itoa(Start+1)", "call[strconv.Itoa](binop[+](const[1], field[Start](field[SequenceLocation](" + feat + "))))", "COORD"},
-			{"col5=Itoa(End)", "call[strconv.Itoa](field[End](field[SequenceLocation](" + feat + ")))", "COORD"},
-			{"col6", "field[Score](" + feat + ")", "FIELDMAP"},
-			{"col7", "field[Strand](" + feat + ")", "FIELDMAP"},
-			{"col8", "field[Phase](" + feat + ")", "FIELDMAP"},
-		}
-		for k, wc := range wantCols {
-			t := featLine[2*k]
-			sep := featLine[2*k+1]
-			has := false
-			var other []string
-			for _, l := range phiLeaves(t) {
-				ls := l.String()
-				if ls == wc.want {
-					has = true
-				} else if strings.Contains(ls, feat) {
-					other = append(other, short(ls))
-				}
-			}
-			c.check(has && len(other) == 0 && sep.isConst(`"\t"`), wc.rule, "Build:"+wc.name, build.Pos(), "column holds "+short(wc.want)+" followed by a tab", fmt.Sprintf("column %d holds %s (other feature data: %v), separator %s", k+1, short(t.String()), other, sep.String()))
-		}
-		c.check(featLine[17].isConst(`"\n"`), "FIELDMAP", "Build:line end", build.Pos(), "feature line ends with \\n", "feature line does not end with a newline")
-		// attributes column: accumulate key + "=" + Attributes[key] + ";" over sorted keys, then drop the trailing ';'
-		at := featLine[16]
-		okAttr := false
-		for _, l := range phiLeaves(at) {
-			if l.Op == "slice" {
-				// slice(acc, 0, len(acc)-1)
-				hi, k := l.Args[2].linear()
-				if l.Args[1].isConst("0") && hi != nil && hi.isCall("builtin:len") && k == -1 {
-					for _, acc := range phiLeaves(l.Args[0]) {
-						p := acc.sumTerms()
-						if len(p) == 5 && p[2].isConst(`"="`) && p[4].isConst(`";"`) && p[3].Op == "lookup" && p[3].Args[0].String() == "field[Attributes]("+feat+")" && p[3].Args[1].String() == p[1].String() {
-							okAttr = true
+		if st == unknown {
+			for _, e := range ems {
+				for _, p := range e.Pieces {
+					if p.Op == "slice" && len(p.Args) == 3 && p.Args[0].String() == src {
+						if hdr := enclosingLoopHeader(e.At.Block()); hdr != nil {
+							st, why = chunkCoverage(btb, hdr, p.Args[1], p.Args[2], 215)
+							at = e.At
 						}
 					}
 				}
 			}
 		}
-		c.check(okAttr, "FIELDMAP", "Build:col9 attributes k=v;k=v", build.Pos(), "k + \"=\" + Attributes[k] + \";\" per key, trailing ';' removed: the reader's split on ';' then '='", "attribute column is not built as key=value pairs joined by ';' without a trailing ';' (unrecognised shape)")
+		pos := build.Pos()
+		if at != nil {
+			pos = at.Pos()
+		}
+		c.judge(st, "TERM", "Build:sequence body = every letter once, in order", pos, "each letter of Sequence is written exactly once on every path (or the chunks written tile the sequence for every length 0..215)", why)
 	}
-	// MAPORDER over Build and what it calls
-	var fs []*ssa.Function
-	for _, f := range funcsSorted(reachable(build)) {
-		if inModule(f) {
-			fs = append(fs, f)
+	c.checkShape(fastaOK && nameLineOK, "FIELDMAP", "Build:##FASTA section", build.Pos(), "\"##FASTA\\n\" then a '>' name line", "the FASTA section marker / name line writes were not recognised")
+	if featLine == nil {
+		c.undecided("FIELDMAP", "Build:feature line", build.Pos(), "no 9-column tab-separated feature line write found")
+		return
+	}
+	// columns = pieces between the tab constants
+	var colsT [][]*Term
+	cur := []*Term{}
+	for _, p := range featLine {
+		if p.isConst(`"\t"`) {
+			colsT = append(colsT, cur)
+			cur = []*Term{}
+			continue
+		}
+		cur = append(cur, p)
+	}
+	colsT = append(colsT, cur)
+	wantCols := []struct{ name, want, rule string }{
+		{"col1", "field[Name](" + feat + ")", "FIELDMAP"},
+		{"col2", "field[Source](" + feat + ")", "FIELDMAP"},
+		{"col3", "field[Type](" + feat + ")", "FIELDMAP"},
+		{"col4=Itoa(Start+1)", "call[strconv.Itoa](binop[+](const[1], field[Start](field[SequenceLocation](" + feat + "))))", "COORD"},
+		{"col5=Itoa(End)", "call[strconv.Itoa](field[End](field[SequenceLocation](" + feat + ")))", "COORD"},
+		{"col6", "field[Score](" + feat + ")", "FIELDMAP"},
+		{"col7", "field[Strand](" + feat + ")", "FIELDMAP"},
+		{"col8", "field[Phase](" + feat + ")", "FIELDMAP"},
+	}
+	var vocab []string
+	for _, wc := range wantCols {
+		vocab = append(vocab, wc.want)
+	}
+	vocab = append(vocab, "binop[-](a, const[1])")
+	for k, wc := range wantCols {
+		if k >= len(colsT) || len(colsT[k]) != 1 {
+			c.undecided(wc.rule, "Build:"+wc.name, featAt.Pos(), "column is assembled from several pieces")
+			continue
+		}
+		t := colsT[k][0]
+		has := false
+		st, why := holds, ""
+		for _, l := range phiLeaves(t) {
+			ls := l.String()
+			switch {
+			case ls == wc.want:
+				has = true
+			case !strings.Contains(ls, feat):
+				// a default for an empty field ("." etc.)
+			default:
+				s2 := unknown
+				if len(opaqueParts(l, vocabOf(vocab...))) == 0 && localDiff(l, wc.want) {
+					s2 = broken
+				}
+				if st == holds || s2 == broken {
+					st, why = s2, fmt.Sprintf("column %d may hold %s; want %s", k+1, short(ls), short(wc.want))
+				}
+			}
+		}
+		if st == holds && !has {
+			st, why = unknown, fmt.Sprintf("column %d holds %s", k+1, short(t.String()))
+		}
+		c.judge(st, wc.rule, "Build:"+wc.name, featAt.Pos(), "column holds "+short(wc.want)+" followed by a tab", why)
+	}
+	last := colsT[len(colsT)-1]
+	endsNL := len(last) >= 1 && last[len(last)-1].isConst(`"\n"`)
+	c.checkShape(len(colsT) == 9 && endsNL, "FIELDMAP", "Build:line end", featAt.Pos(), "nine columns, the line ends with \\n", fmt.Sprintf("%d columns; ends with newline: %v", len(colsT), endsNL))
+	// attributes column: accumulate key + "=" + Attributes[key] + ";" over sorted keys, then drop the trailing ';'
+	stAt, whyAt := unknown, "the attribute column is not built as key=value pairs joined by ';' without a trailing ';' in a form the rule knows"
+	if len(colsT) == 9 && len(last) >= 1 {
+		at := last[0]
+		for _, l := range phiLeaves(at) {
+			if l.isCall("strings.Join") && len(l.Args) == 2 && l.Args[0].Op == "collect" && len(l.Args[0].Args) == 1 {
+				// Join(pairs, ";") with pairs = collect(key + "=" + Attributes[key])
+				sep, okSep := l.Args[1].constStr()
+				p := l.Args[0].Args[0].sumTerms()
+				if okSep && len(p) == 3 && p[2].Op == "lookup" && p[2].Args[0].String() == "field[Attributes]("+feat+")" && p[2].Args[1].String() == p[0].String() {
+					eq, _ := p[1].constStr()
+					if eq != "=" || sep != ";" {
+						stAt, whyAt = broken, fmt.Sprintf("attributes are written as key%qvalue joined by %q; the reader splits on \";\" then \"=\"", eq, sep)
+					} else {
+						stAt = holds
+					}
+				}
+				continue
+			}
+			if l.Op != "slice" {
+				continue
+			}
+			hi, k := l.Args[2].linear()
+			if !((l.Args[1].isConst("0") || l.Args[1].Op == "nil") && hi != nil && hi.isCall("builtin:len") && k == -1) {
+				continue
+			}
+			for _, acc := range phiLeaves(l.Args[0]) {
+				p := acc.sumTerms()
+				if len(p) != 5 || p[3].Op != "lookup" || p[3].Args[0].String() != "field[Attributes]("+feat+")" {
+					continue
+				}
+				eq, _ := p[2].constStr()
+				semi, _ := p[4].constStr()
+				switch {
+				case p[3].Args[1].String() != p[1].String():
+					whyAt = "the value written is not the one stored under the key written"
+				case eq != "=" || semi != ";":
+					stAt, whyAt = broken, fmt.Sprintf("attributes are written as key%qvalue%q; the reader splits on \";\" then \"=\"", eq, semi)
+				default:
+					stAt = holds
+				}
+			}
 		}
 	}
-	checkMapOrder(c, "MAPORDER", fs)
-
-	// WRAPPERS
-	checkReturnIs(c, "WRAPPERS", "Read", w.fn("io/gff", "Read"), 0, "call[poly/io/gff.Parse](extract[0](call[os.ReadFile](param[0])))", "Read(path) = Parse(ReadFile(path))")
-	checkFileWrite(c, "WRAPPERS", "Write", w.fn("io/gff", "Write"), 1, "call[poly/io/gff.Build](param[0])")
+	c.judge(stAt, "FIELDMAP", "Build:col9 attributes k=v;k=v", featAt.Pos(), "k + \"=\" + Attributes[k] + \";\" per key, trailing ';' removed: the reader's split on ';' then '='", whyAt)
 }
